@@ -6,7 +6,10 @@ MAIN = os.path.join(vlib.HARNESS, 'c03_ntt.cpp')
 
 def build(ctx, only_step=None):
     src = [os.path.join(vlib.SRC, f) for f in ('goldilocks_base_field.cpp',)]  # ntt_goldilocks.cpp is #included by the harness
-    ctx.bins = ctx.compile_many([('ntt_cfg', [MAIN] + src, ctx.flags_native(extra=['-I' + vlib.HARNESS]), ['-lgmp'])])
+    # the same sources with assertions compiled out (-DNDEBUG) are a second build configuration: an expression with a side effect
+    # inside assert() disappears there
+    ctx.bins = ctx.compile_many([('ntt_cfg', [MAIN] + src, ctx.flags_native(extra=['-I' + vlib.HARNESS]), ['-lgmp']),
+                                 ('ntt_cfg_ndebug', [MAIN] + src, ctx.flags_native(extra=['-I' + vlib.HARNESS, '-DNDEBUG']), ['-lgmp'])])
 
 
 def explore(ctx, prop):
@@ -21,4 +24,6 @@ def explore(ctx, prop):
                        'sizes above the bound are not enumerated; every schedule shape (pass counts 1..log2 D, clamping on both sides, parity of passes, block remainders) occurs within it']
     ctx.bounds['mined literals'] = ctx.lits()
     ctx.run_step('ntt_cfg', ctx.bins['ntt_cfg'], ['--prop', prop, '--lits', ctx.lits_arg()], timeout=max(60, ctx.time_left()))
+    if 'ntt_cfg_ndebug' in ctx.bins:
+        ctx.run_step('ntt_cfg_ndebug', ctx.bins['ntt_cfg_ndebug'], ['--prop', prop, '--lits', ctx.lits_arg(), '--small', '1'], timeout=max(60, ctx.time_left()))
     ctx.stats['traces_validated_against_impl'] = ctx.stats.get('transitions', 0)
